@@ -355,9 +355,10 @@ def gen_inputs(pid, tier, seed):
 PANIC = [-1]
 ABORT = [-2]
 HANG = [-3]
+RUN_TIER = 'quick'
 
 
-def run_inputs(pid, inputs, tag='run', per_chunk_timeout=900, nchunks=NCPU):
+def run_inputs(pid, inputs, tag='run', per_chunk_timeout=None, nchunks=NCPU):
     """run the real code on inputs (parallel worker processes); returns list of observation trees
     (None = input not understood by the harness).  A worker that dies or hangs yields ABORT / HANG
     for the case it was in and is restarted after it."""
@@ -365,12 +366,16 @@ def run_inputs(pid, inputs, tag='run', per_chunk_timeout=900, nchunks=NCPU):
     n = len(inputs)
     obs = [None] * n
     valid = [True] * n
+    if per_chunk_timeout is None:
+        # a quick-tier chunk takes seconds; the budget is what separates "slow" from "hangs"
+        per_chunk_timeout = 900 if RUN_TIER == 'thorough' else 240
     nchunks = max(1, min(nchunks, (n + 7) // 8))
     chunks = [list(range(k, n, nchunks)) for k in range(nchunks)]
 
     def work(k):
         todo = chunks[k]
         rounds = 0
+        budget = per_chunk_timeout
         while todo:
             rounds += 1
             inp = os.path.join(wd, '%s_in_%d.txt' % (tag, k))
@@ -378,7 +383,7 @@ def run_inputs(pid, inputs, tag='run', per_chunk_timeout=900, nchunks=NCPU):
             with open(inp, 'w') as f:
                 for i in todo:
                     f.write(json.dumps(inputs[i], separators=(',', ':')) + '\n')
-            rc, out = sh([VH, pid, 'run', inp, outp], timeout=per_chunk_timeout)
+            rc, out = sh([VH, pid, 'run', inp, outp], timeout=budget)
             done = 0
             if os.path.exists(outp):
                 for line in open(outp):
@@ -408,6 +413,8 @@ def run_inputs(pid, inputs, tag='run', per_chunk_timeout=900, nchunks=NCPU):
             # the worker died (abort) or hung in case todo[done]
             if done < len(todo):
                 obs[todo[done]] = HANG if rc == 124 else ABORT
+                if rc == 124:
+                    budget = min(budget, 60)   # a hang is established: do not wait that long again in this chunk
                 todo = todo[done + 1:]
             else:
                 return
@@ -536,6 +543,8 @@ def main(argv):
     prop['id'] = pid
     seed = int(os.environ.get('VERIF_SEED', '1') or 1)
     tier = a.tier if a.tier in ('quick', 'thorough') else 'quick'
+    global RUN_TIER
+    RUN_TIER = tier
     t0 = time.time()
     os.makedirs(os.path.join(WORK, pid), exist_ok=True)
     if a.replay:
